@@ -157,6 +157,18 @@ Inductive ev : Type :=
 
 Inductive err : Type := ETime | ENoData | EFuel.
 
+(** the callback of a pull-based component: pull every input for [r] ([rec k x s a] pulls input [k]) *)
+Fixpoint pull_list (rec : nat -> input -> state -> list ev -> state * list ev * option err)
+  (k : nat) (ins : list input) (s : state) (a : list ev) : state * list ev * option err :=
+  match ins with
+  | [] => (s, a, None)
+  | x :: rest =>
+      match rec k x s a with
+      | (s2, a2, None) => pull_list rec (S k) rest s2 a2
+      | e => e
+      end
+  end.
+
 (** pull of input [i] of component [c] for time [t]; events are accumulated in reverse order *)
 Fixpoint pull_input (fuel : nat) (cs : composition) (st : state) (c i : nat) (inp : input) (t : Z)
   (acc : list ev) : state * list ev * option err :=
@@ -175,32 +187,18 @@ Fixpoint pull_input (fuel : nat) (cs : composition) (st : state) (c i : nat) (in
         (st1, ES (fst src) (snd src) r :: acc1, if inrange then None else Some ETime)
       else
         (* pull-based source: its callback pulls every one of its inputs for [r] *)
-        (fix go (k : nat) (ins : list input) (s : state) (a : list ev) : state * list ev * option err :=
-           match ins with
-           | [] => (s, a, None)
-           | x :: rest =>
-               match pull_input fuel' cs s (fst src) k x r a with
-               | (s2, a2, None) => go (S k) rest s2 a2
-               | e => e
-               end
-           end) O (c_inputs (getc cs (fst src))) st1 (ES (fst src) (snd src) r :: acc1)
+        pull_list (fun k x s a => pull_input fuel' cs s (fst src) k x r a)
+          O (c_inputs (getc cs (fst src))) st1 (ES (fst src) (snd src) r :: acc1)
   end.
 
-Fixpoint pull_all (fuel : nat) (cs : composition) (st : state) (c : nat) (k : nat) (ins : list input) (t : Z)
+Definition pull_all (fuel : nat) (cs : composition) (st : state) (c : nat) (ins : list input) (t : Z)
   (acc : list ev) : state * list ev * option err :=
-  match ins with
-  | [] => (st, acc, None)
-  | x :: rest =>
-      match pull_input fuel cs st c k x t acc with
-      | (s2, a2, None) => pull_all fuel cs s2 c (S k) rest t a2
-      | e => e
-      end
-  end.
+  pull_list (fun k x s a => pull_input fuel cs s c k x t a) O ins st acc.
 
 (** [comp.update()] of a harness time component *)
 Definition do_update (cs : composition) (st : state) (c : nat) (acc : list ev) : state * list ev * option err :=
   let nt := next_time cs st c in
-  let '(st1, acc1, e) := pull_all (S (length cs)) cs st c O (c_inputs (getc cs c)) nt (EU c nt :: acc) in
+  let '(st1, acc1, e) := pull_all (S (length cs)) cs st c (c_inputs (getc cs c)) nt (EU c nt :: acc) in
   (mkS (upd (s_time st1) c nt) (upd (s_cnt st1) c (S (s_cnt st1 c))) (s_link st1), acc1, e).
 
 (** * _find_dependencies *)
@@ -241,6 +239,23 @@ Inductive ures : Type :=
 | UCirc
 | UFuel.
 
+(** the loop over [deps.items()]; [rec c' t'] is the recursive call for the owner [c'] of a dependency,
+    [fin] the tail of the function (update the component itself / return None) *)
+Fixpoint dep_loop (cs : composition) (rec : nat -> Z -> ures) (fin : unit -> ures)
+  (deps : list ((nat * nat) * Z)) : ures :=
+  match deps with
+  | [] => fin tt
+  | (o, lt) :: rest =>
+      if is_time cs (fst o) then
+        (* every time-component entry of deps lags by construction *)
+        rec (fst o) 0
+      else
+        match rec (fst o) lt with
+        | UNone => dep_loop cs rec fin rest
+        | r => r
+        end
+  end.
+
 Fixpoint update_rec (fuel : nat) (cs : composition) (st : state) (acc : list ev)
   (c : nat) (chain : list nat) (target : Z) : ures :=
   match fuel with
@@ -249,22 +264,12 @@ Fixpoint update_rec (fuel : nat) (cs : composition) (st : state) (acc : list ev)
       if existsb (Nat.eqb c) chain then UCirc
       else
         let target' := if is_time cs c then next_time cs st c else target in
-        (fix loop (deps : list ((nat * nat) * Z)) : ures :=
-           match deps with
-           | [] =>
-               if is_time cs c then
-                 let '(st', acc', e) := do_update cs st c acc in UUpdated c st' acc' e
-               else UNone
-           | (o, lt) :: rest =>
-               if is_time cs (fst o) then
-                 (* every time-component entry of deps lags by construction *)
-                 update_rec fuel' cs st acc (fst o) (c :: chain) 0
-               else
-                 match update_rec fuel' cs st acc (fst o) (c :: chain) lt with
-                 | UNone => loop rest
-                 | r => r
-                 end
-           end) (find_deps cs st c target')
+        dep_loop cs
+          (fun c' t' => update_rec fuel' cs st acc c' (c :: chain) t')
+          (fun _ => if is_time cs c then
+                      let '(st', acc', e) := do_update cs st c acc in UUpdated c st' acc' e
+                    else UNone)
+          (find_deps cs st c target')
   end.
 
 (** * Composition.run: the do-while loop *)
